@@ -255,6 +255,26 @@ Theorem C17_updates_only : forall H e s m c b,
 Proof. exact dispatch_step. Qed.
 Print Assumptions C17_updates_only.
 
+(* ... also when the update FAILS: if the store step fails (the temporary
+   file cannot be created, written in full or synced, or the rename fails --
+   [e_store_ok e = false]) no group file is altered, whatever the request; the
+   only change left is the deletion of the addressed group, which writes
+   nothing.  (C17_updates_only covers both outcomes: a creation or an update
+   [gc_create], [gc_update] requires [e_store_ok e = true].) *)
+Theorem C17_store_failure : forall H e s m c b,
+  e_store_ok e = false ->
+  let e' := fst (dispatch H e s m c b) in
+  e_groups e' = e_groups e \/
+  exists g, target s = Some g /\ e_groups e' = assoc_del (e_groups e) (clean_name g).
+Proof. exact store_failure. Qed.
+Print Assumptions C17_store_failure.
+
+(* and the failed store step is answered with an error, not 2xx *)
+Theorem C17_store_failure_status : forall e g d r,
+  e_writable e = true -> e_store_ok e = false -> rewrite_file e g d r = (e, r500).
+Proof. exact rewrite_file_fails. Qed.
+Print Assumptions C17_store_failure_status.
+
 (* concurrent requests: the model takes a request as one atomic step.  The
    tie for that is the regenerated table: every function of
    group/description.go that rewrites or removes a group file takes
@@ -409,3 +429,14 @@ Example C17_example_revoked_password :
   is_admin exH e' "g1" (CBasic "bob" "SECRET-bob") = false /\
   is_admin exH e' "g1" (CBasic "bob" "fresh") = true.
 Proof. vm_compute. repeat split; reflexivity. Qed.
+
+(* a failing store step: the administrator's password update is answered 500
+   and everything stored is as before *)
+Example C17_example_store_failure :
+  let e := {| e_conf := e_conf ex_env; e_writable := true; e_store_ok := false;
+              e_groups := e_groups ex_env; e_tokens := e_tokens ex_env |} in
+  handle exH e (ex_req "PUT" "/galene-api/v0/.groups/g1/.users/bob/.password" (CBasic "root" "SECRET-root")
+                  (Build_body_in CTJson (PPassword (plain "fresh")))) = (e, r500) /\
+  snd (handle exH ex_env (ex_req "PUT" "/galene-api/v0/.groups/g1/.users/bob/.password" (CBasic "root" "SECRET-root")
+                  (Build_body_in CTJson (PPassword (plain "fresh"))))) = r204.
+Proof. vm_compute. split; reflexivity. Qed.
